@@ -34,6 +34,7 @@ type PropConfig struct {
 	ID        string   `json:"id"`
 	Level     string   `json:"level"`
 	Functions []string `json:"functions"`         // regexps over function keys; empty: functions whose contract mentions the id
+	ExtraFns  []string `json:"extra_functions"`   // regexps over function keys verified in addition to the default set
 	Extra     []string `json:"extra_obligations"` // regexps over obligation names additionally attributed
 	Exclude   []string `json:"exclude_obligations"`
 	Trusted   []string `json:"trusted_base"`
@@ -229,6 +230,10 @@ func targetFunctions(p *Program, cfg *PropConfig) []string {
 			}
 			continue
 		}
+		if matchAny(cfg.ExtraFns, k) {
+			keys = append(keys, k)
+			continue
+		}
 		con := p.contracts[k]
 		if con == nil {
 			continue
@@ -370,6 +375,14 @@ func statusOf(o *Obligation) string {
 		return "nothing"
 	}
 	return o.Result.Status
+}
+
+// universalKind: obligation kinds that state a property directly, whatever function they arise in:
+// a store or in-place append into the caller's buffer (C04), and the lock discipline of the guarded
+// tree (C06: protocol, guarded reads/writes, read-modify-write atomicity, no in-place append into
+// shared memory without the write lock). They are claimed also in code the baseline does not cover.
+func universalKind(name string) bool {
+	return strings.Contains(name, "#frame.input") || strings.Contains(name, "#lock")
 }
 
 // loadFactor is max(1, 1-minute load average / cores), capped at 6.
@@ -594,7 +607,7 @@ func (res *PropResult) report(p *Program, cfg *PropConfig, tier string, writeBas
 		case "undecided":
 			// ordinals shift when code is edited: an obligation is claimed if the same clause of the
 			// same function (modulo ordinals) was discharged on the unchanged tree
-			if !inBase[s.Name] && !inBaseNorm[normOb(s.Name)] && !strings.Contains(s.Name, "#frame.input") {
+			if !inBase[s.Name] && !inBaseNorm[normOb(s.Name)] && !universalKind(s.Name) {
 				undecidedNew = append(undecidedNew, s.Name)
 				continue
 			}
@@ -610,7 +623,7 @@ func (res *PropResult) report(p *Program, cfg *PropConfig, tier string, writeBas
 		// a store into the memory of an input parameter is the property itself (C04: "the caller's
 		// buffer is never modified") wherever the store sits, so a refuted #frame.input obligation is
 		// claimed even in code the baseline does not cover
-		universal := strings.Contains(s.Name, "#frame.input")
+		universal := universalKind(s.Name)
 		if !reproduced && !universal && !inBase[s.Name] && !inBaseNorm[normOb(s.Name)] {
 			// an obligation that was never discharged on the unchanged tree (new code, or a clause
 			// the engine never decided) and whose counterexample does not replay on the real code
